@@ -59,6 +59,9 @@ class Environment(object):
                 self.conn = Client(addr)
             except Exception as e:
                 if time.time() - start > 5:
+                    # nobody will ever connect to that server: do not leave it behind
+                    self.proc.kill()
+                    self.proc.wait()
                     raise Exception('Supp server launching timeout exceed: ' + str(e))
 
                 time.sleep(0.3)
